@@ -55,9 +55,13 @@ func init() {
 			sops := []int64{0, 3, 4, 5, 7, 8, 10, 11, 12, 13}
 			if tier == "thorough" {
 				sops = allOps
-				scfg.Preempt = 3
 			}
 			sched := pairCases(scfg, []int64{0, 1}, sops)
+			if tier == "thorough" {
+				scfg3 := scfg
+				scfg3.Preempt = 3
+				sched = append(sched, pairCases(scfg3, []int64{0, 1}, core8)...)
+			}
 			return []group{{Tags: "", Pkgs: []string{"c07"}, Cases: cs}, {Tags: "", Pkgs: []string{"c06"}, Cases: sched}}
 		},
 		Reach:       []string{"vfs-call", "file-call", "idm-call", "concurrent", "faulty", "dir-history"},
